@@ -711,6 +711,51 @@ def oom_obligations(pid, tier, seed):
     return {'obligations': obs, 'bounds': bounds}
 
 
+# ---------------------------------------------------------------------------
+# C09: C vs Python
+
+DIFF_FAMILIES_QUICK = ['OO', 'II', 'LL', 'IF', 'fs', 'UU']
+DIFF_FAMILIES_ALL = ['OO', 'II', 'LL', 'IF', 'OI', 'fs', 'UU', 'QQ', 'IO', 'LO', 'LF', 'OL', 'IU', 'UI', 'UO', 'UF', 'LQ', 'QL', 'QO', 'QF', 'OU', 'OQ']
+
+
+def diff_obligations(pid, tier, seed):
+    from harness import h_diff
+    obs = []
+    quick = tier == 'quick'
+    t = 200 if quick else 1500
+    sh, bounds = tree_shapes(tier, seed, quick_extra=(5, 2))
+    for kind, tag, tpl, hist, L, I in sh:
+        m = shapes.n_ranks(tpl)
+        is_set = kind == 'TreeSet'
+        groups = SET_GROUPS if is_set else MAP_GROUPS
+        for g, nops, argn in groups:
+            if g == 'read' and (quick and m > 3):
+                continue
+            if g in ('bulk', 'inplace') and quick and m > 3:
+                argn = ['x']
+            args = [(n, 'int') for n in argn] + [('op', 'int')]
+            for prov in (('loaded', 'grown') if (tag == 'core' and hist and g != 'read' and (not quick or m <= 5)) else ('loaded',)):
+                P = dict(family='OO', kind=kind, tpl=tpl, L=L, I=I, group=g, prov=prov)
+                nk = m
+                if prov == 'grown':
+                    P['hist'] = hist
+                    nk = max(k for _, k in hist) + 1
+                obs.append(dict(id='%s/step/%s/%s%s/%s/%s%s' % (pid, kind, tag, '' if (L, I) == (2, 2) else '%d%d' % (L, I), sid(tpl), g,
+                                                                 '' if prov == 'loaded' else '/grown'),
+                                mod='h_diff', fn='diff_step', nk=nk, args=args, pre=['0 <= op < %d' % nops], params=P, timeout=t))
+    npal = len(h_diff.palette('I', not quick))
+    for fam in (DIFF_FAMILIES_QUICK if quick else DIFF_FAMILIES_ALL):
+        for kind in ('BTree', 'Bucket', 'TreeSet', 'Set'):
+            nops = len(h_diff.SET_OPS if kind in ('Set', 'TreeSet') else h_diff.OPS)
+            for size in (0, 1, 2):
+                obs.append(dict(id='%s/types/%s/%s/size%d' % (pid, fam, kind, size), mod='h_diff', fn='diff_types', nk=0,
+                                args=[('op', 'int'), ('p', 'int')],
+                                pre=['0 <= op < %d' % nops, '0 <= p < %d' % npal],
+                                params=dict(family=fam, kind=kind, size=size, wide=not quick), timeout=t))
+    bounds.update(type_palette=npal, families=DIFF_FAMILIES_QUICK if quick else DIFF_FAMILIES_ALL)
+    return {'obligations': obs, 'bounds': bounds}
+
+
 COMMON_ASSUME = [
     'key objects are observed by the containers only through rich comparison, identity and None-ness '
     '(true for the object-key templates; native-key families are covered by their own obligations where stated)',
@@ -952,5 +997,22 @@ PROPS = {
                    '_bucket_setstate, _set_setstate, _BTree_setstate, bucket_merge, set_operation, copyRemaining, bucket_append'],
         stubs=['allocation failure is injected only in BTree_Malloc/BTree_Realloc (hook); CPython-internal allocations never fail'],
         assumptions=COMMON_ASSUME,
+    ),
+    'C09': dict(
+        families=DIFF_FAMILIES_QUICK,
+        families_thorough=DIFF_FAMILIES_ALL,
+        gen=lambda tier, seed: diff_obligations('C09', tier, seed),
+        explanation='(1) The same solver-chosen public call with symbolic keys is applied to a C and a Python container built from the '
+                    'same catalogue shape and the same key objects (loaded and grown): result, exception class, ordered contents and '
+                    'the normalised state graph (hence the shape after splits/unlinks and the serialized state) must be equal on '
+                    'every path. (2) For native and object-key families, a call kind, an argument and a container size are '
+                    'solver-chosen selectors into palettes (18 integers around every type boundary, 20 values of other Python types '
+                    'incl. bools, floats, inf/nan, str, bytes of several lengths, tuples, objects with default and with custom '
+                    'comparison) and both implementations must agree on raise-vs-return, exception class, exact-typed result and '
+                    'contents; rejected writes leave the contents unchanged.',
+        functions=['all public methods of both implementations; conversion layer: intkeymacros.h / intvaluemacros.h / floatvaluemacros.h / '
+                   'objectkeymacros.h / _fsBTree.c vs BTrees._datatypes'],
+        assumptions=COMMON_ASSUME + ['part (2) is solver-enumeration of selector tuples over concrete palettes: the compiled native-key '
+                                     'code unboxes keys, so they cannot stay symbolic there'],
     ),
 }
